@@ -125,6 +125,7 @@ type rewriter struct {
 
 	// race mode
 	ptrRecv bool
+	selectBlocks map[*ast.BlockStmt]bool
 	accW    map[ast.Expr]bool // expression is written (assignment target, inc/dec)
 	skipAcc map[ast.Expr]bool // address taken / struct-valued inner selector: not an access
 }
@@ -366,10 +367,6 @@ func (r *rewriter) run() bool {
 					}
 				}
 			}
-		case *ast.LabeledStmt:
-			if _, ok := n.Stmt.(*ast.SelectStmt); ok {
-				die("%s: labeled select statement is not supported", r.pkg.Fset.Position(n.Pos()))
-			}
 		}
 		return true
 	}
@@ -484,8 +481,21 @@ func (r *rewriter) run() bool {
 					}
 				}
 			}
+		case *ast.LabeledStmt:
+			// a labeled select became a block ending in a switch: the label moves to the switch,
+			// so that `break Label` keeps its meaning
+			if blk, ok := n.Stmt.(*ast.BlockStmt); ok && r.selectBlocks[blk] {
+				last := len(blk.List) - 1
+				blk.List[last] = &ast.LabeledStmt{Label: n.Label, Stmt: blk.List[last]}
+				c.Replace(blk)
+			}
 		case *ast.SelectStmt:
-			c.Replace(r.rewriteSelect(n))
+			nb := r.rewriteSelect(n)
+			if r.selectBlocks == nil {
+				r.selectBlocks = map[*ast.BlockStmt]bool{}
+			}
+			r.selectBlocks[nb.(*ast.BlockStmt)] = true
+			c.Replace(nb)
 			r.changed = true
 		case *ast.GoStmt:
 			c.Replace(r.rewriteGo(n))
@@ -638,8 +648,8 @@ func (r *rewriter) rewriteRangeChan(n *ast.RangeStmt) ast.Stmt {
 		lhs = n.Key
 		tok = n.Tok
 	}
-	if hasBranch(n.Body, token.CONTINUE) || tok != token.DEFINE {
-		die("%s: range over channel with continue / assignment form is not supported", r.pkg.Fset.Position(n.Pos()))
+	if tok != token.DEFINE {
+		die("%s: range over channel with assignment form is not supported", r.pkg.Fset.Position(n.Pos()))
 	}
 	recv := &ast.AssignStmt{Lhs: []ast.Expr{lhs, ast.NewIdent(ok)}, Tok: token.DEFINE, Rhs: []ast.Expr{method(n.X, "Recv2")}}
 	brk := &ast.IfStmt{Cond: &ast.UnaryExpr{Op: token.NOT, X: ast.NewIdent(ok)}, Body: &ast.BlockStmt{List: []ast.Stmt{&ast.BranchStmt{Tok: token.BREAK}}}}
